@@ -2,6 +2,7 @@
    means for item selection, and the per-state selection lemmas. -/
 import Earverif.Proofs.C14Matrix
 import Earverif.Props.C07
+import Earverif.Proofs.C14Empty
 namespace Earverif.Validate
 open Earverif.AdmV
 
@@ -28,7 +29,7 @@ theorem allocProblem_pack_mem {d : Doc} {pats : List Pattern} {packs : Option (L
 model, of which only soundness is used (an accepted solution consists of packs of the problem) -/
 theorem processState_noInt {d : Doc} {pats : List Pattern} (hw : d.wellScoped = true)
     (hs : StructOk d) (hpats : ∀ pat ∈ pats, PatOk d pat) (hu : uniquePaths d = true) (st : State)
-    (hx : NoInt (avsSelected d st)) : NoInt (processState d pats st) := by
+    (hx : NoInt (avsSelected d st)) (hop : ∀ p, st.objects = some p → p ≠ []) : NoInt (processState d pats st) := by
   have hlt := selectedOf_tracks_lt hw st
   have hok := processState_tracksOk hw hs st
   unfold processState
@@ -56,7 +57,7 @@ theorem processState_noInt {d : Doc} {pats : List Pattern} (hw : d.wellScoped = 
           exact mapE_noInt (fun t ht => trackSpec_noInt (hto t ht)) k he
         · refine sumE_noInt (l := sol) ?_ 0 k hk
           intro _ a ha
-          exact renderingItems_noInt hx hw hs hu (hpats _ (allocProblem_pack_mem (hvalid.packs_mem a ha)).1)
+          exact renderingItems_noInt hx hop hw hs hu (hpats _ (allocProblem_pack_mem (hvalid.packs_mem a ha)).1)
 
 /-! ### the diagnostics return normally, so `raise_error` raises exactly the error asked for -/
 
@@ -145,11 +146,15 @@ theorem possibleReferenceErrors_shape (d : Doc) (packs : Option (List Nat)) (tra
       · cases he
       · rename_i e' he'; injection he with he; subst he; exact hm _ he'
 
-/-- `_PackAllocator.raise_error` on validated tracks raises exactly `AdmFormatRefError(<error_type> ...)` -/
-theorem raiseError_eq {d : Doc} {packs : Option (List Nat)} {tracks : List Nat} {n : Nat} (a : AdmKind)
-    (h : ∀ t ∈ tracks, TrackOk d t) : raiseError d packs tracks n a = .error (.adm a) := by
+/-- `_PackAllocator.raise_error` on validated tracks raises exactly `AdmFormatRefError(<error_type> ...)`, with the
+context and the reasons `possible_reference_errors` returned -/
+theorem raiseError_eq {d : Doc} {ctx : Acc} {packs : Option (List Nat)} {tracks : List Nat} {n : Nat} (a : AdmKind)
+    (h : ∀ t ∈ tracks, TrackOk d t) :
+    ∃ reasons, possibleReferenceErrors d packs tracks n = .ok reasons ∧
+      raiseError d ctx packs tracks n a = .error (.adm a (ctx :: reasons)) := by
   obtain ⟨l, hl⟩ := ok_of_noInt_shape (possibleReferenceErrors_noInt (packs := packs) (n := n) h)
     (possibleReferenceErrors_shape d packs tracks n)
+  refine ⟨l, hl, ?_⟩
   unfold raiseError
   rw [hl]
 
@@ -232,6 +237,43 @@ theorem allocProblem_wf {d : Doc} {pats : List Pattern} (hs : StructOk d) (hpats
     rw [allocChannels_cf _ _ hlen, hq]
     exact packChannels_nodup hs.multitree q
 
+/-- C07's `WF` for the problem the allocator effectively solves (allocation packs without channels removed): no
+hypothesis left -/
+theorem allocProblem_wf_dropEmpty {d : Doc} {pats : List Pattern} (hs : StructOk d) (hpats : ∀ pat ∈ pats, PatOk d pat)
+    (packs : Option (List Nat)) (tracks : List Nat) (cfs : List (Option Nat)) (n : Nat) :
+    PackAlloc.WF (PackAlloc.dropEmpty (allocProblem d pats packs tracks cfs n)) := by
+  refine ⟨?_, ?_, ?_, ?_⟩
+  · exact List.Nodup.sublist List.filter_sublist (zipIdx_map_nodup _ _ (·.id) (fun _ => rfl))
+  · exact zipIdx_map_nodup _ _ (·.id) (fun _ => rfl)
+  · intro p hp hnil
+    have := (List.mem_filter.mp hp).2
+    simp [PackAlloc.hasChannels, hnil] at this
+  · intro p hp
+    have hp' := (List.mem_filter.mp hp).1
+    obtain ⟨hmem, _, hch⟩ := allocProblem_pack_mem hp'
+    obtain ⟨hlen, q, hq⟩ := patOk_shape (hpats _ hmem)
+    rw [hch]
+    simp only [Pattern.allocChannels]
+    rw [allocChannels_cf _ _ hlen, hq]
+    exact packChannels_nodup hs.multitree q
+
+/-- valid assignments of the reduced problem = valid assignments that use no allocation pack without channels -/
+theorem valid_dropEmpty_iff (prob : PackAlloc.Problem) (sol : PackAlloc.Sol) :
+    PackAlloc.Valid (PackAlloc.dropEmpty prob) sol ↔
+      PackAlloc.Valid prob sol ∧ ∀ a ∈ sol, a.pack.channels ≠ [] := by
+  constructor
+  · intro h
+    refine ⟨⟨fun a ha => (List.mem_filter.mp (h.packs_mem a ha)).1, h.channels, h.complete, h.tracks, h.silent,
+      h.compat, h.refs⟩, ?_⟩
+    intro a ha hnil
+    have := (List.mem_filter.mp (h.packs_mem a ha)).2
+    simp [PackAlloc.hasChannels, hnil] at this
+  · rintro ⟨h, hne⟩
+    refine ⟨fun a ha => List.mem_filter.mpr ⟨h.packs_mem a ha, ?_⟩, h.channels, h.complete, h.tracks, h.silent,
+      h.compat, h.refs⟩
+    have := hne a ha
+    simpa [PackAlloc.hasChannels] using this
+
 /-! ### what the allocator's decision means for one state -/
 
 /-- the allocation problem of a state whose selected tracks passed `validate_selected_audioTrackUID`
@@ -241,7 +283,7 @@ def stateProblem (d : Doc) (pats : List Pattern) (st : State) (cfs : List (Optio
 
 /-- what `select_pack_mapping` + `_get_rendering_items` do with an accepted solution -/
 def renderSolution (d : Doc) (pats : List Pattern) (st : State) (sol : PackAlloc.Sol) : R Nat :=
-  sumE sol 0 (fun _ a => renderingItems d (avsSelected d st) (pats.getD a.pack.id default))
+  sumE sol 0 (fun _ a => renderingItems d (avsSelected d st) st.objects (pats.getD a.pack.id default))
 
 theorem trackSpec_shape (d : Doc) (t : Nat) : OkOrInternal (trackSpec d t) := by
   intro e he
@@ -256,11 +298,10 @@ theorem processState_decided {d : Doc} {pats : List Pattern} {st : State} {cfs :
     (hw : d.wellScoped = true) (hs : StructOk d)
     (hv : forE (selectedOf d st).2.1 (validateSelectedTrack d) = .ok ())
     (hcf : mapE (selectedOf d st).2.1 (channelForTrack d) = .ok cfs) :
-    processState d pats st =
-      match PackAlloc.selectPackMapping (stateProblem d pats st cfs) with
-      | .conflicting => .error (.adm .conflicting)
-      | .ambiguous => .error (.adm .ambiguous)
-      | .accepted sol => renderSolution d pats st sol := by
+    match PackAlloc.selectPackMapping (stateProblem d pats st cfs) with
+    | .conflicting => ∃ m, processState d pats st = .error (.adm .conflicting m)
+    | .ambiguous => ∃ m, processState d pats st = .error (.adm .ambiguous m)
+    | .accepted sol => processState d pats st = renderSolution d pats st sol := by
   have hto := processState_tracksOk hw hs st hv
   unfold processState stateProblem
   rcases hsel : selectedOf d st with ⟨packs, tracks, n⟩
@@ -271,8 +312,8 @@ theorem processState_decided {d : Doc} {pats : List Pattern} {st : State} {cfs :
   obtain ⟨l, hl⟩ := ok_of_noInt_shape (mapE_noInt (fun t ht => trackSpec_noInt (hto t ht)))
     (mapE_shape (fun t _ => trackSpec_shape d t))
   cases PackAlloc.selectPackMapping (allocProblem d pats packs tracks cfs n) with
-  | conflicting => exact raiseError_eq _ hto
-  | ambiguous => exact raiseError_eq _ hto
+  | conflicting => obtain ⟨r, _, hr⟩ := raiseError_eq (ctx := ctxOf st) (packs := packs) (n := n) .conflicting hto; exact ⟨_, hr⟩
+  | ambiguous => obtain ⟨r, _, hr⟩ := raiseError_eq (ctx := ctxOf st) (packs := packs) (n := n) .ambiguous hto; exact ⟨_, hr⟩
   | accepted sol => simp only [hl, renderSolution]
 
 end Earverif.Validate
